@@ -509,10 +509,12 @@ def returned_comparisons(body, ch, pred):
     return out
 
 
-def edges_not_taken_when(prog, body, ch, adt_suffix, field, variant, depth=0):
+def edges_not_taken_when(prog, body, ch, adt_suffix, field, variant, depth=0, assume=(), known=None):
     """CFG edges of `body` that cannot be taken when `<x>.field` (an enum of type adt_suffix) is `variant`:
     switchInt on its discriminant, PartialEq::eq/ne against a promoted constant, `matches!`, and bool workspace helpers
-    of `x` whose result is determined by the variant (evaluated recursively, one level)."""
+    of `x` whose result is determined by the variant (evaluated recursively).  `assume` is a list of (predicate over
+    expressions, truth value) taken as given (e.g. "the chain is not empty").  When `known` is a dict it receives
+    {bool local: value} for call results that are determined, so that a path explorer can follow flags built from them."""
     from .expr import Chaser, has_field
     adt = None
     for p, a in prog.adts.items():
@@ -526,8 +528,72 @@ def edges_not_taken_when(prog, body, ch, adt_suffix, field, variant, depth=0):
 
     def is_field(e):
         return has_field(e, None, field)
+
+    def truth(e):
+        """value of the bool expression e for this variant, or None"""
+        e, neg = unwrap_not(e)
+        val = None
+        for pred, v in assume:
+            if pred(e):
+                val = v
+        if val is None and e[0] == "call" and e[1] in ("std::cmp::PartialEq::eq", "std::cmp::PartialEq::ne") and len(e[2]) == 2:
+            a, b = e[2]
+            other = promoted_value(prog, body, b) if is_field(a) else promoted_value(prog, body, a) if is_field(b) else None
+            if other is not None:
+                val = (other == variant) == e[1].endswith("::eq")
+        elif val is None and e[0] == "call" and depth < 2 and e[1].startswith(("saito_", "<saito_")):
+            hb = prog.bodies.get(e[1])
+            if hb is not None and hb.ty(0)["s"] == "bool" and not hb.is_coroutine:
+                hch = Chaser(hb)
+                hknown = {}
+                hd = edges_not_taken_when(prog, hb, hch, adt_suffix, field, variant, depth + 1, assume, hknown)
+                from .paths import Explorer
+
+                def can(value):
+                    def accept(bb, env):
+                        if hb.term(bb)["k"] == "return":
+                            v = env.get(0)
+                            if v is None or bool(v) == value:
+                                return "return"
+                        return None
+                    return bool(Explorer(hb, fixed_locals=dict(hknown)).explore(0, deleted_edges=set(hd), accept=accept))
+                can_t, can_f = can(True), can(False)
+                if can_t != can_f:
+                    val = can_t
+                else:
+                    # the helper's result may be the test itself: `self.transaction_type == TransactionType::Issuance`
+                    vals = set()
+                    for d in hb.defs(0):
+                        x = hch.rvalue(d[3], 0) if d[0] == "stmt" else hch.call(d[2], d[1], 0) if d[0] == "call" else None
+                        if x is None:
+                            vals.add(None)
+                            continue
+                        if x[0] == "const":
+                            continue            # constant arms are covered by the reachability test above
+                        x2, xneg = unwrap_not(x)
+                        v2 = None
+                        for pred, v in assume:
+                            if pred(x2):
+                                v2 = v
+                        if v2 is None and x2[0] == "call" and x2[1] in ("std::cmp::PartialEq::eq", "std::cmp::PartialEq::ne") and len(x2[2]) == 2:
+                            a, b = x2[2]
+                            other = promoted_value(prog, hb, b) if is_field(a) else promoted_value(prog, hb, a) if is_field(b) else None
+                            if other is not None:
+                                v2 = (other == variant) == x2[1].endswith("::eq")
+                        vals.add(None if v2 is None else (v2 != xneg))
+                    if len(vals) == 1 and None not in vals and not (can_t and can_f and any(
+                            (hch.rvalue(d[3], 0) if d[0] == "stmt" else ("x",))[0] == "const" for d in hb.defs(0))):
+                        val = vals.pop()
+        if val is None:
+            return None
+        return (not val) if neg else val
     for bb, blk in enumerate(body.blocks):
         t = blk["t"]
+        # results of determined calls, for flags built from them
+        if known is not None and t["k"] == "call" and not t["dest"][1] and body.ty(t["dest"][0])["s"] == "bool":
+            v = truth(ch.call(t, bb, 0))
+            if v is not None:
+                known[t["dest"][0]] = v
         if t["k"] != "switch":
             continue
         e0 = ch.origin(t["discr"])
@@ -538,39 +604,9 @@ def edges_not_taken_when(prog, body, ch, adt_suffix, field, variant, depth=0):
             taken = listed.get(want, t["otherwise"])
             dead |= {(bb, s) for s in succs if s != taken}
             continue
-        val = None          # truth value of the (un-negated) expression for this variant, if determined
-        if e[0] == "call" and e[1] in ("std::cmp::PartialEq::eq", "std::cmp::PartialEq::ne") and len(e[2]) == 2:
-            a, b = e[2]
-            other = promoted_value(prog, body, b) if is_field(a) else promoted_value(prog, body, a) if is_field(b) else None
-            if other is not None:
-                val = (other == variant) == e[1].endswith("::eq")
-        elif e[0] == "call" and depth < 2 and e[1].startswith(("saito_", "<saito_")):
-            hb = prog.bodies.get(e[1])
-            if hb is not None and hb.ty(0)["s"] == "bool" and not hb.is_coroutine:
-                hch = Chaser(hb)
-                hd = edges_not_taken_when(prog, hb, hch, adt_suffix, field, variant, depth + 1)
-                can_t = _reaches_return(hb, True, hd)
-                can_f = _reaches_return(hb, False, hd)
-                if can_t != can_f:
-                    val = can_t
-                else:
-                    # the helper's result may be the comparison itself: `self.transaction_type == TransactionType::Issuance`
-                    vals = set()
-                    for d in hb.defs(0):
-                        x = hch.rvalue(d[3], 0) if d[0] == "stmt" else hch.call(d[2], d[1], 0) if d[0] == "call" else None
-                        x, xneg = unwrap_not(x) if x is not None else (None, False)
-                        if x is not None and x[0] == "call" and x[1] in ("std::cmp::PartialEq::eq", "std::cmp::PartialEq::ne") and len(x[2]) == 2:
-                            a, b = x[2]
-                            other = promoted_value(prog, hb, b) if is_field(a) else promoted_value(prog, hb, a) if is_field(b) else None
-                            if other is not None:
-                                vals.add(((other == variant) == x[1].endswith("::eq")) != xneg)
-                                continue
-                        vals.add(None)
-                    if len(vals) == 1 and None not in vals:
-                        val = vals.pop()
-        if val is None:
+        v = truth(e0)
+        if v is None:
             continue
-        truth = (not val) if neg else val
         T, F = _bool_targets(t)
-        dead |= {(bb, s) for s in (F if truth else T)}
+        dead |= {(bb, s) for s in (F if v else T)}
     return dead
